@@ -41,6 +41,101 @@ def small_curve():
     return _SMALL
 
 
+_SMALL_ED = None
+
+
+class EdRef:
+    """textbook affine arithmetic on a*x^2 + y^2 = 1 + d*x^2*y^2 over GF(p) (complete: a square, d non-square)"""
+
+    def __init__(self, p, a, d):
+        self.p, self.a, self.d = p, a % p, d % p
+
+    def add(self, P, Q):
+        p = self.p
+        (x1, y1), (x2, y2) = P, Q
+        t = self.d * x1 * x2 * y1 * y2 % p
+        return ((x1 * y2 + y1 * x2) * pow(1 + t, -1, p) % p, (y1 * y2 - self.a * x1 * x2) * pow(1 - t, -1, p) % p)
+
+    def mul(self, k, P):
+        R = (0, 1)
+        for bit in bin(k)[2:]:
+            R = self.add(R, R)
+            if bit == "1":
+                R = self.add(R, P)
+        return R
+
+    def points(self):
+        p = self.p
+        return [(x, y) for x in range(p) for y in range(p) if (self.a * x * x + y * y - 1 - self.d * x * x * y * y) % p == 0]
+
+
+def small_edwards():
+    """first complete twisted Edwards curve -x^2 + y^2 = 1 + d x^2 y^2 over GF(p), p = 1 mod 4, with a subgroup of prime order > 100"""
+    global _SMALL_ED
+    if _SMALL_ED is None:
+        def is_prime(n):
+            return n > 1 and all(n % q for q in range(2, int(n ** 0.5) + 1))
+        for p in (509, 521, 541, 557):
+            squares = {x * x % p for x in range(1, p)}
+            for d in range(2, p):
+                if d in squares:
+                    continue
+                cv = EdRef(p, -1, d)
+                pts = cv.points()
+                N = len(pts)
+                n = max(q for q in range(2, N + 1) if N % q == 0 and is_prime(q))
+                if n < 100:
+                    continue
+                h = N // n
+                for pt in pts:
+                    g = cv.mul(h, pt)
+                    if g != (0, 1) and g[0] and cv.mul(n, g) == (0, 1):
+                        cv.n, cv.h, cv.g = n, h, g
+                        _SMALL_ED = cv
+                        return cv
+    return _SMALL_ED
+
+
+def aff_ed(R, cv):
+    if R is E.INFINITY or R == E.INFINITY:
+        return (0, 1)
+    return (int(R.x()) % cv.p, int(R.y()) % cv.p)
+
+
+def ops_for_edwards(scenario):
+    cv = small_edwards()
+    n, p = cv.n, cv.p
+    cf = E.CurveEdTw(p, cv.a, cv.d, cv.h)
+    k1 = (n * 2) // 3 + 1
+    k2 = n // 5 + 2
+    Pp = cv.mul(11, cv.g)
+
+    def ext(pt, z):
+        return (pt[0] * z % p, pt[1] * z % p, z, pt[0] * pt[1] * z % p)
+
+    def mk():
+        s = {}
+        s["G"] = E.PointEdwards(cf, *ext(cv.g, 1), order=n, generator=True)
+        s["GZ"] = E.PointEdwards(cf, *ext(cv.g, 7), order=n, generator=True)
+        s["P"] = E.PointEdwards(cf, *ext(Pp, 5), order=n)
+        if scenario == "S8":
+            s["GZ"] * 3     # table already built
+        return s
+    A = lambda f: (lambda s: aff_ed(f(s), cv))      # noqa: E731
+    ops = {
+        "GZ*k1": (A(lambda s: s["GZ"] * k1), cv.mul(k1, cv.g)),
+        "GZ*k2": (A(lambda s: s["GZ"] * k2), cv.mul(k2, cv.g)),
+        "GZ.scale": (A(lambda s: s["GZ"].scale()), cv.g),
+        "GZ.xy": (lambda s: (int(s["GZ"].x()), int(s["GZ"].y())), cv.g),
+        "GZ==G": (lambda s: (s["GZ"] == s["G"], s["GZ"] == s["P"]), (True, False)),
+        "GZ+P": (A(lambda s: s["GZ"] + s["P"]), cv.add(cv.g, Pp)),
+        "P*k1": (A(lambda s: s["P"] * k1), cv.mul(k1, Pp)),
+        "P.scale": (A(lambda s: s["P"].scale()), Pp),
+        "GZ.double": (A(lambda s: s["GZ"].double()), cv.add(cv.g, cv.g)),
+    }
+    return mk, ops
+
+
 def curve_objs(name):
     """(CurveFp, reference curve, order)"""
     if name == "small":
@@ -163,6 +258,11 @@ SCENARIOS = {
     "S6": ("small", None),
     "S3": ("p256", [("verify1", "verify2"), ("verify1", "verify-bad"), ("verify-bad", "verify1")]),
     "S1p": ("p256", [("G*k1", "G*k2"), ("G*k1", "G.mul_add")]),
+    # the other curve family: a generator on a small complete twisted Edwards curve, not normalised (z != 1), with its lazily
+    # built table (S7: not yet built, S8: built) and a plain point rescaled in place
+    "S7": ("edwards", [(a, b) for a in ("GZ*k1", "GZ.scale", "GZ.xy", "GZ==G", "GZ+P", "P*k1", "P.scale", "GZ.double")
+                       for b in ("GZ*k2", "GZ.scale", "GZ+P", "P.scale")]),
+    "S8": ("edwards", [(a, b) for a in ("GZ*k1", "GZ.scale", "GZ+P") for b in ("GZ*k2", "GZ.scale")]),
 }
 # scenarios explored with TWO preemptions at shared-state accesses; value: ordered pairs for the quick tier (None = all pairs)
 TWO_PREEMPTIONS = {
@@ -173,8 +273,9 @@ TWO_PREEMPTIONS = {
     "S6": [("GZ*k1", "GZ.scale"), ("GZ.scale", "GZ*k1"), ("GZ*k1", "GZ.to_affine"), ("GZ.scale", "GZ.to_affine"),
            ("GZ==G", "GZ.scale")],
     "S4": [("P.mul_add(Q)", "Q.mul_add(P)"), ("P+Q", "P.mul_add(Q)"), ("P.mul_add(Q)", "P+Q")],
+    "S7": [("GZ*k1", "GZ*k2"), ("GZ*k1", "GZ.scale"), ("GZ.scale", "GZ*k1"), ("GZ==G", "GZ.scale")],
 }
-QUICK_NO_OPCODE = ("S4", "S6")      # opcode-level preemption of these scenarios only in the thorough tier (S1, S2, S5 keep it)
+QUICK_NO_OPCODE = ("S4", "S6", "S8")      # opcode-level preemption of these scenarios only in the thorough tier (S1, S2, S5 keep it)
 CHUNK_POINTS = 48
 _CACHE = {}
 
@@ -182,7 +283,7 @@ _CACHE = {}
 def scenario_ops(name):
     if name not in _CACHE:
         cname = SCENARIOS[name][0]
-        _CACHE[name] = ops_for("S1" if name == "S1p" else name, cname)
+        _CACHE[name] = ops_for_edwards(name) if cname == "edwards" else ops_for("S1" if name == "S1p" else name, cname)
     return _CACHE[name]
 
 
@@ -389,13 +490,13 @@ def cases(ctx):
             for c in range(0, len(idx), CHUNK_POINTS):
                 yield ("curve", name, a, b, c, skipped if c == 0 else 0)
             # opcode-level preemption inside the methods that read or publish shared point state (splits multi-load lines)
-            if (SCENARIOS[name][0] == "small" and name not in QUICK_NO_OPCODE) or not ctx.quick:
+            if (SCENARIOS[name][0] in ("small", "edwards") and name not in QUICK_NO_OPCODE) or not ctx.quick:
                 idx2, _ = points_for(ctx, name, a, "opcode")
                 for c in range(0, len(idx2), CHUNK_POINTS):
                     yield ("curve-op", name, a, b, c, 0)
         for a in ops:
             yield ("curve-seq", name, a)
-        if name in TWO_PREEMPTIONS and (SCENARIOS[name][0] == "small" or not ctx.quick):
+        if name in TWO_PREEMPTIONS and (SCENARIOS[name][0] in ("small", "edwards") or not ctx.quick):
             for a, b in (pairs if not ctx.quick or TWO_PREEMPTIONS[name] is None else TWO_PREEMPTIONS[name]):
                 na, _ = count_shared(ops[a][0], mk())
                 for i0 in range(0, na, CHUNK2):
